@@ -464,7 +464,7 @@ func checkC15(c *Check) {
 	}
 	// the timestamp block precedes the commit of the inner message (C20.1): no failing return after the commit
 	for _, f := range discoverFormats(c) {
-		if spg := c.skeleton(f.method("Sign")); spg != nil {
+		if spg := c.signSkeleton(f); spg != nil {
 			isBase := LP{Desc: "store to the inner message", F: func(l Label) bool { return (l.Kind == "store" || l.Kind == "lstore") && l.Key == "recv.base" }}
 			c.noPathFrom(spg, "O-C15.4", f.name+": a failed timestamp leaves no envelope", "after the inner message was committed no failure is possible", isBase, returnsWhere(spg, func(s *PState) bool { return !retNilErr(s, 1) }), nil)
 		}
